@@ -20,6 +20,10 @@ use crate::store::{Store, StoreError};
 const SHWAP_FETCH_TIMEOUT: Duration = Duration::from_secs(5);
 const HEADER_BROADCAST_CHANNEL_CAPACITY: usize = 16;
 
+#[cfg(eigerco_lumina_verif)]
+#[path = "subscriptions_verif_hooks.rs"]
+pub(crate) mod verif_hooks;
+
 /// Error thrown while processing the subscription
 #[derive(Debug, thiserror::Error)]
 pub enum SubscriptionError {
